@@ -170,16 +170,24 @@ def run(tier):
                 for x in mir.walk(body.origin_operand(t["args"][0])):
                     if x[0] == "field" and fn.get("impl_self_adt"):
                         releasers.add((fn["impl_self_adt"], x[2]))
+    # K5: the context is an ordinary owned field of the container; generated code that handles containers, objects and groups
+    # (casts, conversions, wrappers) must leave its release to the language: any ownership primitive outside the RetTmp move idiom
+    # (ManuallyDrop, forget, ptr::read, transmute of an owner ...) can leak or duplicate the context on some path
+    from rules import c06
+    n_k5 = c06.gen_summaries(ck, cf, None, "corpus", r_move="K5-context-owner-only-rettmp-move", r_unbal="K5-context-owner-bypasses-drop")
+    ck.floor("generated functions using ownership primitives (corpus)", n_k5, 4)
     n_slots = check_slots(ck, cf, None, "corpus", releasers)
     ck.floor("RetTmp slot instantiations", n_slots, 8)
     ct = facts.cfg_cglue(tests=True)
     ck.unit("cglue --tests")
     m2 = model.Model(ct, "cglue-test")
     check_model(ck, m2, "cglue-tests", stats)
+    c06.gen_summaries(ck, ct, "cglue-test", "cglue-tests", r_move="K5-context-owner-only-rettmp-move", r_unbal="K5-context-owner-bypasses-drop")
     ex = facts.cfg_examples()
     ck.unit("examples")
     m3 = model.Model(ex)
     check_model(ck, m3, "examples", stats)
+    c06.gen_summaries(ck, ex, None, "examples", r_move="K5-context-owner-only-rettmp-move", r_unbal="K5-context-owner-bypasses-drop")
     # positive control for K4: the controls crate has an orphan slot that must be seen as droppable storage without destructor
     ctl = corpus.controls_facts()
     oa = [a for a in ctl.adts() if a["name"] == "OrphanSlot"]
@@ -189,6 +197,7 @@ def run(tier):
         "per generated method: the context operand of every wrapped return is a fresh clone of the wrapper's own container context (by-reference "
         "receivers, on every path) or the moved context of the consumed container (by-value receivers); the opaque impl of every consuming method "
         "holds a context clone from before the vtable call until after it returns; every RetTmp slot instantiation is checked for storage whose "
-        "droppable contents nobody releases",
+        "droppable contents nobody releases; generated code touching owners uses no ownership primitive outside the RetTmp move idiom (K5), so "
+        "the context field of a consumed or converted object is released or moved by the language on every path",
         rule_text="obligation = one (method, K-rule) or one (RetTmp slot, context instantiation)",
         trusted=["each object owns exactly one context field and the language drops it exactly once (safe code)", "needs_drop as computed by rustc"])
